@@ -60,6 +60,13 @@ def gen(rng):
         # what urllib3 switches on the context for the first handshake must not weaken the second
         "shared_ctx": ps == "https" and ds == "https" and rng.random() < 0.35,
     }
+    if ds == "https" and cell["host"] == "name" and not cell["forwarding"] and not cell["prelude_http"] and not cell["shared_ctx"] and rng.random() < 0.5:
+        # the destination's TLS name given explicitly (server_hostname=): it concerns the handshake inside the tunnel only -- an
+        # https proxy is still verified under its own name.  "dest_name": the proxy presents a trusted certificate issued for the
+        # destination's name instead of its own
+        cell["server_hostname"] = "origin.test"
+        if ps == "https" and rng.random() < 0.5:
+            cell["proxy_cert"] = "dest_name"
     if ps == "https" and cell["proxy_cert"] == "ok" and not cell["shared_ctx"] and rng.random() < 0.4:
         # the proxy's own identity checks beyond the chain: a pinned fingerprint (of the certificate it serves, or of another one
         # from the same trusted CA) and an asserted name (its own, or another)
@@ -117,7 +124,7 @@ def run(sc: dict) -> Result:
         return tp
 
     w.tunnel_factory = tunnel_factory
-    proxy_cert = "proxy" if c["proxy_cert"] == "ok" else "bad_proxy"
+    proxy_cert = {"ok": "proxy", "dest_name": "origin"}.get(c["proxy_cert"], "bad_proxy")
     if ps == "https":
         w.default_listener = lambda w_, chan: T.TlsPeer(w_, chan, lambda w2, ch: P.HttpPeer(w2, ch, "proxy", "proxy", True), cert=proxy_cert, name="proxy")
     else:
@@ -138,6 +145,9 @@ def run(sc: dict) -> Result:
             kw.pop("ca_certs")
             kw.update(ssl_context=ctx_, proxy_ssl_context=ctx_, proxy_assert_hostname="proxy.test")
             res.probes["shared_context_for_proxy_and_destination"] += 1
+        if c.get("server_hostname"):
+            kw["server_hostname"] = c["server_hostname"]
+            res.probes["server_hostname_given"] += 1
         pv = c.get("proxy_verify")
         if pv in ("pin_match", "pin_other"):
             import hashlib as _hl
@@ -183,7 +193,7 @@ def run(sc: dict) -> Result:
         at_origin = [q for q in w.requests if q.peer == "origin"]
         origin_plain = sum(len(tp.plain_in) for tp in origin_tls)
         ph_names = {k_.lower() for k_, _ in c["proxy_headers"]}
-        proxy_should_fail_tls = ps == "https" and (c["proxy_cert"] == "bad" or c.get("proxy_verify") in ("pin_other", "name_other"))
+        proxy_should_fail_tls = ps == "https" and (c["proxy_cert"] in ("bad", "dest_name") or c.get("proxy_verify") in ("pin_other", "name_other"))
         refused_later = tunnel_expected and c["connect"].startswith("200_then_")
         connect_refused = tunnel_expected and c["connect"] != "200" and not refused_later
         origin_bad = tunnel_expected and c["origin_cert"] != "ok" and not proxy_should_fail_tls and not connect_refused
@@ -331,7 +341,7 @@ def _has_proxy_error(e) -> bool:
 
 
 def shrinks(sc):
-    simple = {"shared_ctx": False, "prelude_http": False, "proxy_scheme": "http", "dest_scheme": "https", "forwarding": False, "proxy_cert": "ok", "origin_cert": "ok", "connect": "200", "proxy_headers": [], "req_headers": [], "host": "name", "port": None, "nreq": 1, "close_between": "none", "proxy_verify": None}
+    simple = {"shared_ctx": False, "prelude_http": False, "proxy_scheme": "http", "dest_scheme": "https", "forwarding": False, "proxy_cert": "ok", "origin_cert": "ok", "connect": "200", "proxy_headers": [], "req_headers": [], "host": "name", "port": None, "nreq": 1, "close_between": "none", "proxy_verify": None, "server_hostname": None}
     for k, v in simple.items():
         if sc["cell"].get(k, v) != v:
             c = copy.deepcopy(sc)
